@@ -267,41 +267,52 @@ def simpleMethod (verb : Verb) (action : String) (m0 : Method) : Method :=
   | .POST => if action != "" then .action else .partial_update
   | .other => m0
 
+/-- `switch restLiMethod { case Method_get, …: if !hasEntity …; case Method_finder, …: if hasEntity … }` -/
+def checkEntity (C : Consts) (m : Method) (hasEntity : Bool) : Except Nat Method :=
+  if needsEntity m && !hasEntity then .error C.stNoEntity
+  else if forbidsEntity m && hasEntity then .error C.stEntityForbidden
+  else .ok m
+
+/-- `h = p.finders[finder]` / `p.actions[action]` / `p.methods[restLiMethod]`, and the context facts -/
+def lookupHandler (C : Consts) (n : Node) (rpath : List Seg) (keys : List String) (hasEntity : Bool)
+    (m : Method) (finder action : String) : Resolved :=
+  if m = .finder then
+    if n.finders.contains finder then .ok ⟨m, rpath, keys, some finder, none⟩ hasEntity
+    else .errResp C.stNoFinder
+  else if m = .action then
+    match n.actions.lookup action with
+    | some onEntity => .ok ⟨m, rpath, keys, none, some action⟩ onEntity
+    | none => .errResp C.stNoAction
+  else if n.methods.contains m then .ok ⟨m, rpath, keys, none, none⟩ hasEntity
+  else .errResp C.stNoMethod
+
+/-- what `receive` does with the method it settled on (or the error it stopped with) -/
+def finish (C : Consts) (n : Node) (rpath : List Seg) (keys : List String) (hasEntity : Bool)
+    (finder action : String) : Except Nat Method → Resolved
+  | .error s => .errResp s
+  | .ok m => lookupHandler C n rpath keys hasEntity m finder action
+
+/-- the body of `receive` after the query has been parsed: `m0` is `MethodNameMapping[header]`,
+`finder`/`action` the values of the reserved parameters ("" when absent), `hasIds` whether `ids` is there -/
+def resolveWith (C : Consts) (n : Node) (rpath : List Seg) (keys : List String) (hasEntity : Bool)
+    (verb : Verb) (m0 : Method) (finder action : String) (hasIds : Bool) : Resolved :=
+  finish C n rpath keys hasEntity finder action <|
+    if n.isCollection then
+      if m0 = .unknown then
+        match inferMethod verb hasEntity finder hasIds m0 with
+        | some m => checkEntity C m hasEntity
+        | none => .error C.stPostNeedsHeader
+      else checkEntity C m0 hasEntity
+    else
+      if hasEntity then .error C.stEntityOnSimple else .ok (simpleMethod verb action m0)
+
 def resolve (C : Consts) (V : String → Bool) (n : Node) (rpath : List Seg) (keys : List String)
     (hasEntity : Bool) (req : Req) : Resolved :=
   let m0 := nameMapping C ((req.headers.lookup C.methodHeader).getD "")
   if !(req.query.all fun kv => V kv.2) then .rawErr else
-  let finder := (lookupLast C.paramFinder req.query).getD ""
-  let action := (lookupLast C.paramAction req.query).getD ""
-  let chosen : Except Nat Method :=
-    if n.isCollection then
-      let hasIds := (lookupLast C.paramIds req.query).isSome
-      let m1 : Except Nat Method :=
-        if m0 = .unknown then
-          match inferMethod req.verb hasEntity finder hasIds m0 with
-          | some m => .ok m
-          | none => .error C.stPostNeedsHeader
-        else .ok m0
-      match m1 with
-      | .error s => .error s
-      | .ok m =>
-        if needsEntity m && !hasEntity then .error C.stNoEntity
-        else if forbidsEntity m && hasEntity then .error C.stEntityForbidden
-        else .ok m
-    else
-      if hasEntity then .error C.stEntityOnSimple else .ok (simpleMethod req.verb action m0)
-  match chosen with
-  | .error s => .errResp s
-  | .ok m =>
-    if m = .finder then
-      if n.finders.contains finder then .ok ⟨m, rpath, keys, some finder, none⟩ hasEntity
-      else .errResp C.stNoFinder
-    else if m = .action then
-      match n.actions.lookup action with
-      | some onEntity => .ok ⟨m, rpath, keys, none, some action⟩ onEntity
-      | none => .errResp C.stNoAction
-    else if n.methods.contains m then .ok ⟨m, rpath, keys, none, none⟩ hasEntity
-    else .errResp C.stNoMethod
+  resolveWith C n rpath keys hasEntity req.verb m0
+    ((lookupLast C.paramFinder req.query).getD "") ((lookupLast C.paramAction req.query).getD "")
+    (lookupLast C.paramIds req.query).isSome
 
 /-! ## `ServeHTTP` + `receive` as one routing decision -/
 
